@@ -288,7 +288,7 @@ pub fn run(ctx: &Ctx) -> Result<Run, String> {
     let mut g = g;
     {
         use super::inst::{self, IOp};
-        let alphabet = [IOp::Get { who: 0, prf: false, silent: false }, IOp::Get { who: 2, prf: false, silent: false }, IOp::Get { who: 3, prf: false, silent: false }, IOp::Get { who: 4, prf: false, silent: false }, IOp::Make { rk: true, prf: false }, IOp::Make { rk: false, prf: false }, IOp::Info, IOp::Cancelled(0), IOp::Cancelled(1), IOp::GetUnusableKey, IOp::GetUpdateFails, IOp::Panics { op: 1, what: 0 }, IOp::Panics { op: 1, what: 1 }];
+        let alphabet = [IOp::Get { who: 0, prf: false, silent: false }, IOp::Get { who: 2, prf: false, silent: false }, IOp::Get { who: 3, prf: false, silent: false }, IOp::Get { who: 4, prf: false, silent: false }, IOp::Make { rk: true, prf: false }, IOp::Make { rk: false, prf: false }, IOp::Info, IOp::Cancelled(0), IOp::Cancelled(1), IOp::GetUnusableKey, IOp::GetUpdateFails, IOp::Panics { op: 1, what: 0 }, IOp::Panics { op: 1, what: 1 }, IOp::Synced(3)];
         let st = inst::sweep(&alphabet, 3, &[0, 1, 2], ctx.threads, "instance");
         g.transitions += st.evaluations;
         g.stats.count("instance_differential_histories", st.evaluations);
